@@ -356,3 +356,77 @@ def formula_mass_ref(value, elem_mass):
     if pos != len(body):
         return None
     return total
+
+
+# ------------------------------------------------------------------------------------------------ reach of the modelled code
+
+class Reach:
+    """which lines of the MODELLED python functions the check's inputs executed (sys.monitoring, Python 3.12)"""
+    TOOL = 4
+
+    def __init__(self, funcs):
+        import sys
+        self.sys = sys
+        self.codes = {}
+        for f in funcs:
+            f = getattr(f, '__wrapped__', f)
+            self._add(f.__code__, f.__module__.split('.')[-1] + '.' + f.__qualname__)
+        self.hit = set()
+        self.on = False
+
+    def _add(self, code, name):
+        self.codes[code] = name
+        for c in code.co_consts:
+            if hasattr(c, 'co_code'):
+                self._add(c, name)
+
+    def start(self):
+        mon = getattr(self.sys, 'monitoring', None)
+        if mon is None:
+            return
+        try:
+            mon.use_tool_id(self.TOOL, 'verif-reach')
+        except ValueError:
+            return
+        self.on = True
+
+        def cb(code, line):
+            self.hit.add((code, line))
+            return mon.DISABLE
+
+        mon.register_callback(self.TOOL, mon.events.LINE, cb)
+        for code in self.codes:
+            mon.set_local_events(self.TOOL, code, mon.events.LINE)
+
+    def stop(self):
+        if not self.on:
+            return
+        mon = self.sys.monitoring
+        for code in self.codes:
+            mon.set_local_events(self.TOOL, code, 0)
+        mon.register_callback(self.TOOL, mon.events.LINE, None)
+        mon.free_tool_id(self.TOOL)
+        self.on = False
+
+    def report(self):
+        """{function: {'lines': n, 'hit': k, 'uncovered': [line numbers]}}"""
+        per = {}
+        for code, name in self.codes.items():
+            lines = {ln for (_, _, ln) in code.co_lines() if ln is not None and ln != code.co_firstlineno}
+            got = {ln for (c, ln) in self.hit if c is code}
+            d = per.setdefault(name, {'lines': set(), 'hit': set()})
+            d['lines'] |= lines
+            d['hit'] |= (got & lines)
+        return {n: {'lines': len(d['lines']), 'hit': len(d['hit']), 'uncovered': sorted(d['lines'] - d['hit'])}
+                for n, d in sorted(per.items())}
+
+
+def attach_reach(chk, reach):
+    reach.stop()
+    rep = reach.report()
+    tot = sum(v['lines'] for v in rep.values())
+    hit = sum(v['hit'] for v in rep.values())
+    chk.notes.append({'reach_of_modelled_functions': {'executable_lines': tot, 'executed': hit,
+                                                       'uncovered': {n: v['uncovered'] for n, v in rep.items() if v['uncovered']}}})
+    chk.count('modelled_lines_total', tot)
+    chk.count('modelled_lines_executed', hit)
